@@ -7,6 +7,8 @@ mod expand;
 mod front;
 mod ir;
 mod shape;
+mod showser;
+mod syntaxs;
 mod util;
 
 fn main()
@@ -22,6 +24,7 @@ fn main()
 	{
 		"front" => front::stream(&args[2]),
 		"fuzz" => delta::fuzz_stream(&args[2]),
+		"syntax-tree" => syntaxs::stream(&args[2]),
 		"lex" => delta::lex_stream(&args[2]),
 		"delta-tree" => delta::stream(&args[2]),
 		"diag" => diag::stream(&args[2]),
